@@ -10,6 +10,7 @@ import (
 	"crypto/sha256"
 	"encoding/json"
 	"fmt"
+	"net/http"
 	gos "os"
 	"path/filepath"
 	"sort"
@@ -19,6 +20,7 @@ import (
 	"github.com/ollama/ollama/api"
 	"github.com/ollama/ollama/fs/ggml"
 	"github.com/ollama/ollama/zzverif/evid"
+	"github.com/ollama/ollama/zzverif/fakereg"
 	"github.com/ollama/ollama/zzverif/mcos"
 	"github.com/ollama/ollama/zzverif/mcrt"
 )
@@ -33,6 +35,8 @@ type z4Op struct {
 	// shares one blob under two media types, a template overrides the one create detects in the file
 	License  string `json:"license,omitempty"`
 	Template string `json:"template,omitempty"`
+	// Dash: the model file is named by the other accepted spelling of its digest, "sha256-<hex>"
+	Dash bool `json:"dash,omitempty"`
 }
 
 func (o z4Op) extras() string {
@@ -42,6 +46,9 @@ func (o z4Op) extras() string {
 	}
 	if o.Template != "" {
 		s += fmt.Sprintf(",template=%q", o.Template)
+	}
+	if o.Dash {
+		s += ",digest spelled sha256-"
 	}
 	return s
 }
@@ -56,6 +63,8 @@ func (o z4Op) String() string {
 		return fmt.Sprintf("copy(%s->%s)", o.Src, o.Name)
 	case "delete":
 		return fmt.Sprintf("delete(%s)", o.Name)
+	case "pullh":
+		return fmt.Sprintf("pull(%s)", o.Name)
 	default:
 		return o.Kind
 	}
@@ -87,7 +96,11 @@ func z4Alphabet(thorough bool) []z4Op {
 		z4Op{Kind: "create", Name: "b", GGUF: 1, License: "S1"},
 		z4Op{Kind: "create", Name: "a", GGUF: 3},
 		z4Op{Kind: "create", Name: "b", GGUF: 3, Template: z4Template},
-		z4Op{Kind: "from", Name: "b", Src: "a", Template: z4Template})
+		z4Op{Kind: "from", Name: "b", Src: "a", Template: z4Template},
+		z4Op{Kind: "create", Name: "b", GGUF: 2, Dash: true},
+		// the default namespace in another letter case, and a pull by short name from the default registry
+		z4Op{Kind: "create", Name: "Library/a", GGUF: 1},
+		z4Op{Kind: "pullh", Name: "a"})
 	return l
 }
 
@@ -140,6 +153,9 @@ func (w *z12World) z4Apply(o z4Op) (bool, string) {
 	switch o.Kind {
 	case "create":
 		d := z4GGUF(w, o.GGUF)
+		if o.Dash {
+			d = strings.Replace(d, ":", "-", 1)
+		}
 		code, body := ztCall(w.h, "POST", "/api/create", api.CreateRequest{Model: o.Name, Files: map[string]string{"m.gguf": d}, System: o.System, Template: o.Template, License: z4License(o), Stream: &stream})
 		mcrt.WaitIdle(false)
 		return code == 200, body
@@ -153,6 +169,11 @@ func (w *z12World) z4Apply(o z4Op) (bool, string) {
 	case "delete":
 		code, body := ztCall(w.h, "DELETE", "/api/delete", api.DeleteRequest{Model: o.Name})
 		return code == 200, body
+	case "pullh":
+		// pull through the API handler, from the default registry (host and namespace are implied by the short name)
+		code, body := ztCall(w.h, "POST", "/api/pull", api.PullRequest{Model: o.Name, Stream: &stream})
+		mcrt.WaitIdle(false)
+		return code == 200 && !strings.Contains(body, `"error"`), body
 	case "pull":
 		err := PullModel(gocontext.Background(), ztName, &registryOptions{}, func(api.ProgressResponse) {})
 		mcrt.WaitIdle(false)
@@ -182,10 +203,23 @@ func z4Run(history []z4Op) z4Result {
 		w := &z12World{ztWorld: zw, h: ztRouter()}
 		w.srv.NoFaultsLeft = true
 		w.publish("lib/model:tag", []int{10, 3}, 2, 3)
+		// the default registry serves library/a:latest
+		def := fakereg.New("registry.ollama.ai")
+		def.NoFaultsLeft = true
+		def.CDNHost = "cdn.ollama.test" // (the legacy downloader needs the blob GET to be redirected)
+		{
+			data := ztData(5, 9)
+			d := def.AddBlob(data)
+			mb, _ := json.Marshal(ztManifest{SchemaVersion: 2, MediaType: "application/vnd.docker.distribution.manifest.v2+json", Layers: []ztLayer{{"application/vnd.ollama.image.license", d, len(data)}}})
+			def.Manifests["library/a:latest"] = mb
+		}
+		http.DefaultTransport = fakereg.Multi{w.srv, def}
 		for i, o := range history {
 			before := w.snapshot()
 			ok, detail := w.z4Apply(o)
-			_ = detail
+			if gos.Getenv("VERIF_DEBUG_DUMP") != "" {
+				fmt.Fprintf(gos.Stderr, "OP %v -> %v %s\n", o, ok, strings.TrimSpace(detail))
+			}
 			after := w.snapshot()
 			where := fmt.Sprintf("after %v", history[:i+1])
 			if ok && o.Kind == "create" && o.GGUF == 3 && o.Template == "" {
